@@ -40,15 +40,21 @@ func (c *Int) GetValue() int {
 }
 
 func (c *Int) GetMinValue() int {
-	return c.MinValue.(int)
+	// Not every characteristic declares this bound
+	value, _ := c.MinValue.(int)
+	return value
 }
 
 func (c *Int) GetMaxValue() int {
-	return c.MaxValue.(int)
+	// Not every characteristic declares this bound
+	value, _ := c.MaxValue.(int)
+	return value
 }
 
 func (c *Int) GetStepValue() int {
-	return c.StepValue.(int)
+	// Not every characteristic declares this bound
+	value, _ := c.StepValue.(int)
+	return value
 }
 
 // OnValueRemoteGet calls fn when the value was read by a client.
